@@ -308,6 +308,21 @@ def cases(seed, count):
         out.append(('leak', leak_program(), [str(n), str(k)]))
     for n, m in ((3, 1), (10, 1), (10, 3), (24, 3), (24, 5), (9, 2)):
         out.append(('defeat-leak', defeat_leak_program(), [str(n), str(m)]))
+    # global arrays with a negative constant length: must be refused; if one is accepted its accesses are judged like any other
+    for el, fillv in (('bool', 'true'), ('int', '7'), ('byte', "'x'"), ('string', '"s"')):
+        for n in (-1, -3, -7, -8, -32768):
+            src = UTIL + f'''
+int before = 111;
+{el} gneg[{n}];
+int canary = 12345;
+empty @is_you(int k) {{
+    write(gneg.length); write(' ');
+    if (k >= 0) {{ gneg[k] = {fillv}; write('!'); }}
+    write(before); write(canary);
+}}
+'''
+            for k in (0, 9):
+                out.append((f'global-negative-length/{el}', src, [str(k)]))
     for tag, src in write_deepest_programs():
         for n in (12343, -12343, -32768 + 2, 7):
             out.append((tag, src, [str(n)]))
